@@ -1,5 +1,5 @@
 (* Verdict function for the C03 correspondence run: the API calls that were made and the tables of the serialized profile. *)
-From SV Require Import Model.ProfileTables Model.FrameTables Model.MarkerTable.
+From SV Require Import Model.ProfileTables Model.FrameTables Model.MarkerTable Model.Categories.
 Open Scope N_scope.
 
 Definition othread := ((N * N) * (N * N) * bool * thread_json * list stack_key * list (N * option nat) * list (option nat))%type.
@@ -8,8 +8,8 @@ Definition othread := ((N * N) * (N * N) * bool * thread_json * list stack_key *
 (* observed per-thread tables: stringArray (content ids), resourceTable.lib / name, funcTable.name / resource, frameTable.func / address / nativeSymbol,
    nativeSymbols.libIndex / address / name *)
 Definition otables := (list N * list nat * list nat * list nat * list (option nat) * list nat * list (option N) * list (option nat) * list nat * list N * list nat *
-                        (list (option nat) * list (option N) * list (option N) * list N))%type.
-   (* ... and funcTable.fileName, frameTable.line / column / inlineDepth *)
+                        (list (option nat) * list (option N) * list (option N) * list N) * (list nat * list nat))%type.
+   (* ... and funcTable.fileName, frameTable.line / column / inlineDepth; frameTable.category / subcategory *)
 
 Record c03case := mkCase {
   cp_procs : list (N * N);                                   (* pid, start *)
@@ -24,7 +24,11 @@ Record c03case := mkCase {
   ob_libs : list nat;                                        (* library handles in the order of the JSON libs array *)
   ob_tables : list otables;                                  (* per JSON thread *)
   cp_mops : list (option nat * N * mop);                     (* in call order: (None, 0, MReg schema) | (Some thread handle, name, MAdd type values) *)
-  ob_markers : list (list (N * list N)) }.                   (* per JSON thread: per marker (name, field values in schema order) *)
+  ob_markers : list (list (N * list N));                     (* per JSON thread: per marker (name, field values in schema order) *)
+  cp_other : N; cp_gray : N;                                 (* content id of the string "Other", number of the colour gray *)
+  cp_cops : list cop;                                        (* category / subcategory requests in call order (by handle and by value) *)
+  cp_req_sc : list (option nat);                             (* per request of cp_reqs: the subcategory handle it was given - None = CategoryHandle::OTHER, Some j = what the j-th cp_cops call returned *)
+  ob_cats : list (N * N * list N) }.                         (* meta.categories: name, colour, subcategories *)
 
 Fixpoint listnat_eqb (a b : list nat) : bool :=
   match a, b with [], [] => true | x :: a', y :: b' => Nat.eqb x y && listnat_eqb a' b' | _, _ => false end.
@@ -61,18 +65,19 @@ Definition translate (used : list nat) (r : freq) : freq :=
                     (match index_of Nat.eqb nslib used with Some i => i | None => 0%nat end) nsaddr nm fl ln cl d ln2
   | x => x
   end.
-Definition model_tables (reqs : list (nat * freq)) (h : nat) : otables :=
-  let used := used_libs reqs in
-  let t := run_reqs (map (fun r => translate used (snd r)) (filter (fun r => Nat.eqb (fst r) h) reqs)) in
+Definition model_tables (reqs : list (nat * freq * (nat * nat))) (h : nat) : otables :=
+  let used := used_libs (map fst reqs) in
+  let t := run_reqs (map (fun r => (translate used (snd (fst r)), snd r)) (filter (fun r => Nat.eqb (fst (fst r)) h) reqs)) in
   (tt_strings t, tt_res_lib t, tt_res_name t, map fu_name (tt_funcs t), tt_func_res t, tt_frame_func t, map (fun k => option_map ni_rel (fk_native k)) (tt_frames t),
    map (fun k => match fk_native k with Some ni => ni_ns ni | None => None end) (tt_frames t), map fst (tt_ns t), map snd (tt_ns t), tt_ns_name t,
-   (map fu_file (tt_funcs t), map fk_line (tt_frames t), map fk_col (tt_frames t), map (fun k => match fk_native k with Some ni => ni_depth ni | None => 0 end) (tt_frames t))).
+   (map fu_file (tt_funcs t), map fk_line (tt_frames t), map fk_col (tt_frames t), map (fun k => match fk_native k with Some ni => ni_depth ni | None => 0 end) (tt_frames t)),
+   (map (fun k => fst (fk_sub k)) (tt_frames t), map (fun k => snd (fk_sub k)) (tt_frames t))).
 Definition otables_eqb (a b : otables) : bool :=
-  let '(s1, rl1, rn1, fn1, fr1, ff1, fa1, fs1, nl1, na1, nn1, (fl1, ln1, cl1, dp1)) := a in
-  let '(s2, rl2, rn2, fn2, fr2, ff2, fa2, fs2, nl2, na2, nn2, (fl2, ln2, cl2, dp2)) := b in
+  let '(s1, rl1, rn1, fn1, fr1, ff1, fa1, fs1, nl1, na1, nn1, (fl1, ln1, cl1, dp1), (ca1, sb1)) := a in
+  let '(s2, rl2, rn2, fn2, fr2, ff2, fa2, fs2, nl2, na2, nn2, (fl2, ln2, cl2, dp2), (ca2, sb2)) := b in
   listN_eqb s1 s2 && listnat_eqb rl1 rl2 && listnat_eqb rn1 rn2 && listnat_eqb fn1 fn2 && liston_eqb fr1 fr2 && listnat_eqb ff1 ff2 && listoN_eqb fa1 fa2 &&
   liston_eqb fs1 fs2 && listnat_eqb nl1 nl2 && listN_eqb na1 na2 && listnat_eqb nn1 nn2 &&
-  liston_eqb fl1 fl2 && listoN_eqb ln1 ln2 && listoN_eqb cl1 cl2 && listN_eqb dp1 dp2.
+  liston_eqb fl1 fl2 && listoN_eqb ln1 ln2 && listoN_eqb cl1 cl2 && listN_eqb dp1 dp2 && listnat_eqb ca1 ca2 && listnat_eqb sb1 sb2.
 
 (* markers of thread h as the model stores and serializes them: every registration, and this thread's add_marker calls *)
 Definition model_markers (mops : list (option nat * N * mop)) (h : nat) : option (list (N * list N)) :=
@@ -117,6 +122,19 @@ Fixpoint blocks_ok (prev : option (N * N)) (seen : list (N * N)) (nonmain_seen :
       | None => blocks_ok (Some p) (p :: seen) (negb (ot_main o)) r
       end
   end.
+
+(* the category table the model ends with, against meta.categories *)
+Fixpoint cats_eqb (a : list cat) (b : list (N * N * list N)) : bool :=
+  match a, b with
+  | [], [] => true
+  | x :: a', (n, c, subs) :: b' => (c_name x =? n) && (c_color x =? c) && listN_eqb (c_subs x) subs && cats_eqb a' b'
+  | _, _ => false
+  end.
+(* every (category, subcategory) stored in a frame row exists in meta.categories *)
+Definition subs_in_range (cats : list (N * N * list N)) (o : otables) : bool :=
+  let '(_, _, _, _, _, _, _, _, _, _, _, _, (ca, sb)) := o in
+  Nat.eqb (length ca) (length sb) &&
+  forallb (fun x => match nth_error cats (fst x) with Some (_, _, subs) => Nat.ltb (snd x) (length subs) | None => false end) (combine ca sb).
 
 Definition verdict (c : c03case) : N :=
   let os := ob_threads c in
@@ -170,14 +188,21 @@ Definition verdict (c : c03case) : N :=
                       then match first_thread_index pkeys tkeys ph with Some i => Nat.eqb i (fst (snd x)) | None => false end
                       else true) (combine (cp_counters c) (ob_counters c)) in
   (* L1: the frame / func / resource / string tables and the used-library order are exactly the model's *)
+  let cres := crun (cp_other c) (cats_init (cp_other c) (cp_gray c), []) (cp_cops c) in
+  let hs := match cres with Some st => snd st | None => [] end in
+  let reqs3 := map (fun x => (fst x, match snd x with None => (0%nat, 0%nat) | Some j => nth j hs (0%nat, 0%nat) end)) (combine (cp_reqs c) (cp_req_sc c)) in
   let tables_ok :=
     listnat_eqb (used_libs (cp_reqs c)) (ob_libs c) &&
     Nat.eqb (length (ob_tables c)) (length m_order) &&
-    forallb (fun x => otables_eqb (model_tables (cp_reqs c) (fst x)) (snd x)) (combine m_order (ob_tables c)) in
+    Nat.eqb (length (cp_reqs c)) (length (cp_req_sc c)) &&
+    forallb (fun x => otables_eqb (model_tables reqs3 (fst x)) (snd x)) (combine m_order (ob_tables c)) &&
+    (* the category table: the model's (Model/Categories.v) *)
+    match cres with Some st => cats_eqb (fst st) (ob_cats c) | None => false end in
+  let subs_ok := forallb (subs_in_range (ob_cats c)) (ob_tables c) in
   (* every marker's name and field values are the ones its add_marker call supplied (model: Model/MarkerTable.v) *)
   let markers_ok :=
     Nat.eqb (length (ob_markers c)) (length m_order) &&
     forallb (fun x => match model_markers (cp_mops c) (fst x) with Some l => markers_eqb l (snd x) | None => false end)
             (combine m_order (ob_markers c)) in
   (if (2 <=? N.of_nat (length (cp_threads c))) && (1 <=? N.of_nat (length (cp_samples c))) then 10 else 0) +
-  (if negb (wf && uniq && refs && canon) then 2 else if conform && tables_ok && markers_ok then 0 else 1).
+  (if negb (wf && uniq && refs && canon && subs_ok) then 2 else if conform && tables_ok && markers_ok then 0 else 1).
